@@ -388,7 +388,12 @@ class Evaluator:
         if isinstance(a, Sym) or isinstance(b, Sym):
             s, c, flip = (a, b, False) if isinstance(a, Sym) else (b, a, True)
             if isinstance(c, Sym):
-                raise AnalysisError("comparison of two symbolic numbers")
+                if opn in ("Eq", "NotEq"):
+                    same = s is c
+                    if same:
+                        return opn == "Eq"
+                    return self.decide(site)       # two symbolic numbers may or may not be equal
+                raise AnalysisError("ordering comparison of two symbolic numbers")
             if not isinstance(c, (int, float)) or isinstance(c, bool):
                 return {"Eq": False, "NotEq": True}.get(opn, False)
             if flip:
